@@ -246,6 +246,14 @@ EvResume(e) ==
     /\ rank' = RankWith(e) /\ ok' = OkWith(e, TRUE)
     /\ aux' = [aux EXCEPT !.last = "resume", !.itsum = e.it_sum, !.obs.it = -1] /\ UNCHANGED disk
 
+\* -------------------------------------------------------- resume_checked
+\* check_resume() ran in the resumed process: the restored proposal pool is usable (flagged populated
+\* with indices left) exactly if it was when the checkpoint was written - a pool invalidated by a
+\* training (left-over indices) must not be resurrected
+EvResumeChecked(e) ==
+    /\ P("C12", "restored_pool_usable_as_when_checkpointed", e.pool_eff_ok)
+    /\ UNCHANGED <<s, rank, ok, disk, aux>>
+
 \* ---------------------------------------------------------------- finalise
 EvFinalise(e) ==
     \E post \in {[s EXCEPT !.dead = s.dead \o e.dead_tail,
@@ -316,6 +324,7 @@ TraceStep ==
            [] e.ev = "ckpt"       -> EvCkpt(e)
            [] e.ev = "ckpt_call"  -> EvCkptCall(e)
            [] e.ev = "resume"     -> EvResume(e)
+           [] e.ev = "resume_checked" -> EvResumeChecked(e)
            [] e.ev = "finalise"   -> EvFinalise(e)
            [] e.ev = "done"       -> EvDone(e)
            [] e.ev = "done_again" -> EvDoneAgain(e)
